@@ -26,7 +26,7 @@ RULE = (
     "TypeError for the error cases. non-trivial = a supplied variable occurs with exponent >= 2 in a term "
     "with non-zero coefficient and its value is not 0 or 1."
 )
-LEVEL_TEXT += (" Integer carriers of large values with inexact coefficients (result is a float and must not wrap in the integers), and scalar integer values whose square/cube leaves 32 bits carried by every numpy integer type that holds them.")
+LEVEL_TEXT += (" Integer carriers of large values with inexact coefficients (result is a float and must not wrap in the integers), and scalar integer values whose square/cube leaves 32 bits carried by every numpy integer type that holds them; with integer coefficients the float comes in through another argument, given as a Python float, numpy scalar, list, array, constant polynomial or polynomial with float coefficients.")
 ASSUMPTIONS = [
     "integer carriers of any width and Python ints keep the exact result below 2**62 (else the case is discarded and counted); float16/float32 carriers get small dyadic values whose powers are exact in that width",
     "a None placeholder combined with a keyword for the same name is not generated (statement leaves it open)",
@@ -116,7 +116,22 @@ def large_carrier_case(draw):
     for i, name in enumerate(names):
         big = draw(st.sampled_from([10 ** 4, -10 ** 4, 70000, 10 ** 5, -3 * 10 ** 5, 2 ** 20])) if i == 0 else draw(st.integers(-3, 3))
         if i == 1 and kind == "i":
-            spec.append({"how": "kw", "val": {"t": "pyfloat", "v": draw(st.sampled_from([0.5, -1.25, 2.0]))}})
+            # the float comes in as a Python float, a numpy scalar, a list, an array, a constant polynomial or a
+            # polynomial with float coefficients
+            f = draw(st.sampled_from([0.5, -1.25, 2.0]))
+            form = draw(st.sampled_from(["pyfloat", "pyfloat", "np", "list", "array", "const-poly", "poly"]))
+            if form == "pyfloat":
+                val = {"t": "pyfloat", "v": f}
+            elif form == "np":
+                val = {"t": "np", "dtype": "float64", "v": f}
+            elif form in ("list", "array"):
+                n = draw(st.sampled_from([1, 2]))
+                val = {"t": form, "dtype": "float64", "shape": [n], "v": [f, 0.5][:n]}
+            else:
+                # (float coefficients are stored as quarters)
+                val = {"t": "poly", "desc": {"names": [name], "shape": [], "kind": "f", "retain": False,
+                                             "terms": [[[0 if form == "const-poly" else 1], [int(f * 4)]]]}}
+            spec.append({"how": "kw", "val": val})
             continue
         t = draw(st.sampled_from(["pyint", "np", "np", "array"]))
         if t == "pyint":
@@ -298,8 +313,17 @@ def check_case(case, ctx):
     # narrow *float* carriers keep small dyadic values (their powers are computed in that width)
     # (a polynomial with inexact coefficients evaluates to floats: integer carriers of large values must then
     # not wrap around on the way, so those cases stay in)
-    float_result = full_numeric and (case["poly"]["kind"] in ("f", "c") or any(
-        s["val"] and s["val"]["t"] in ("pyfloat", "pycomplex") for s in case["spec"]))
+    def float_valued(v):
+        return bool(v) and (v["t"] in ("pyfloat", "pycomplex") or
+                            (v["t"] in ("np", "array", "list") and str(v.get("dtype", "")).startswith(("float", "complex"))) or
+                            (v["t"] == "poly" and v["desc"]["kind"] in ("f", "c")))
+
+    # (polynomial-valued arguments: only when each of them has float coefficients and every name is supplied -
+    # integer polynomials are raised to their powers in integers)
+    all_supplied = len(env_models) == len(names)
+    poly_args_float = all(float_valued(s["val"]) for s in case["spec"] if s["val"] and s["val"]["t"] == "poly")
+    float_result = (full_numeric or (all_supplied and any_poly_arg and poly_args_float)) and (
+        case["poly"]["kind"] in ("f", "c") or any(float_valued(s["val"]) for s in case["spec"]))
     if bound >= (1e150 if float_result else 2 ** 62):
         ctx.discard_case("magnitude-bound")
         return []
